@@ -330,4 +330,39 @@ Section StructureFactor.
       + apply k_mag_swap; [exact Hh|]. apply in_all_idx. exact Hin.
       + rewrite !sf_at_eq, sumsq_swap, (Hswap shape i x k Hd Hd' Hin). reflexivity.
   Qed.
+  (* np.flip along an axis is the index reflection composed with a cyclic shift by one cell
+     (x[N-1-n] = x[-(n+1) mod N], see flip_index_arith); any shift may be composed *)
+  Lemma sf_flip_perm shape h ax s x : dom shape -> Forall (fun n => (0 < n)%nat) shape ->
+    Permutation (sf_pairs shape h (fun n => x (reflect_idx shape ax (shift_idx shape s n)))) (sf_pairs shape h x).
+  Proof.
+    intros Hd Hpos. unfold sf_pairs.
+    rewrite (sf_list_shift_inv shape s (fun n => x (reflect_idx shape ax n)) Hd).
+    apply sf_reflect_perm; assumption.
+  Qed.
+
+  (* any sequence of adjacent transpositions, i.e. any permutation of the axes *)
+  Lemma sf_axis_perm_seq (swaps : list nat) : (forall i s, dom s -> dom (swap_at i s)) ->
+    forall shape h x, dom shape -> Forall (fun n => (0 < n)%nat) shape -> length h = length shape ->
+    Permutation (sf_pairs (fold_left (fun l i => swap_at i l) swaps shape)
+                          (fold_left (fun l i => swap_at i l) swaps h)
+                          (fun n => x (fold_right (fun i m => swap_at i m) n swaps)))
+                (sf_pairs shape h x).
+  Proof.
+    intros Hclosed. induction swaps as [|i rest IH]; intros shape h x Hd Hpos Hl.
+    - apply Permutation_refl.
+    - cbn [fold_left fold_right].
+      eapply Permutation_trans.
+      + apply (IH (swap_at i shape) (swap_at i h) (fun n => x (swap_at i n))).
+        * apply Hclosed. exact Hd.
+        * apply swap_pos. exact Hpos.
+        * rewrite !swap_length. exact Hl.
+      + apply sf_axis_swap_perm; try assumption. apply Hclosed. exact Hd.
+  Qed.
 End StructureFactor.
+
+Lemma flip_index_arith n m : (m < n)%nat -> ((n - (m + 1) mod n) mod n = n - 1 - m)%nat.
+Proof.
+  intros Hm. destruct (Nat.eq_dec (m + 1) n) as [E|E].
+  - rewrite E, Nat.mod_same by lia. rewrite Nat.sub_0_r, Nat.mod_same by lia. lia.
+  - rewrite (Nat.mod_small (m + 1)) by lia. rewrite Nat.mod_small by lia. lia.
+Qed.
